@@ -5,6 +5,15 @@ import os
 import sys
 import traceback
 
+import atexit
+import shutil
+import tempfile
+
+if "PYDRA_HASH_CACHE" not in os.environ:      # private persistent hash cache (the per-user one is scanned on every run)
+    _hc = tempfile.mkdtemp(prefix="verif_hashcache_")
+    os.environ["PYDRA_HASH_CACHE"] = _hc
+    atexit.register(shutil.rmtree, _hc, True)
+
 from harness import core
 
 
